@@ -369,6 +369,24 @@ func (r runner[T]) build(name string, o Operand) (*operand[T], string) {
 			op.s = maps.NewSetFromSlice(init)
 		}
 	case "keys":
+		if len(init)%2 == 0 {
+			// a source map that already has the set's own underlying type; emptied by the caller afterwards
+			km := map[T]struct{}{}
+			for _, v := range init {
+				km[v] = struct{}{}
+			}
+			if isSync {
+				op.s = sync2.NewSetFromKeys(km)
+			} else {
+				op.s = maps.NewSetFromKeys(km)
+			}
+			for k := range km {
+				if k == k {
+					delete(km, k)
+				}
+			}
+			break
+		}
 		km := map[T]int{}
 		for i, v := range init {
 			km[v] = i
@@ -377,6 +395,11 @@ func (r runner[T]) build(name string, o Operand) (*operand[T], string) {
 			op.s = sync2.NewSetFromKeys(km)
 		} else {
 			op.s = maps.NewSetFromKeys(km)
+		}
+		for k := range km {
+			if k == k {
+				delete(km, k)
+			}
 		}
 	case "values":
 		vm := map[int]T{}
